@@ -529,3 +529,119 @@ func tableVariantCase(cs *fw.Case) {
 		cs.Violation(sig(monitor, typ+".Import", variant, "any", f.Kind), "the object read from an equivalent spelling differs from the one read from the canonical file: "+f.Detail, w)
 	}
 }
+
+/* export histories: the same path is written two or three times with objects
+ * of different sizes, kinds and element types (larger first), then imported:
+ * the file must hold the last object only
+ * -------------------------------------------------------------------------- */
+
+func sizedObject(kind string, t gen.ElemType, r *prng.Rand, big bool) any {
+	lo, hi := 1, 3
+	if big {
+		lo, hi = 6, 12
+	}
+	switch kind {
+	case "dense-vector":
+		v := gen.NullVector(t, gen.Dense, r.Range(lo, hi))
+		fillVector(v, t, r, 0.2, false)
+		return v
+	case "sparse-vector":
+		v := gen.NullVector(t, gen.Sparse, r.Range(lo, hi))
+		fillVector(v, t, r, 0.3, false)
+		setValue(v.At(0), t, drawNonZero(t, r))
+		return v
+	case "dense-matrix":
+		m := gen.NullMatrix(t, gen.Dense, r.Range(lo, hi), r.Range(lo, hi))
+		fillMatrix(m, t, r, 0.2, false)
+		return m
+	}
+	m := gen.NullMatrix(t, gen.Sparse, r.Range(lo, hi), r.Range(lo, hi))
+	fillMatrix(m, t, r, 0.3, false)
+	setValue(m.At(0, 0), t, drawNonZero(t, r))
+	return m
+}
+
+func tableHistoryCase(cs *fw.Case) {
+	const monitor = "table.history"
+	r := cs.R
+	i := cs.Index
+	t := gen.Types[i%9]
+	kind := tableKinds[(i/9)%4]
+	mode := []string{"larger-then-smaller", "other-kind-then-this", "other-type-then-this", "three-writes"}[(i/36)%4]
+	dir := scratchDir(cs)
+	defer removeScratch(dir)
+	path := filepath.Join(dir, "history.table")
+	var objs []any
+	if p := fw.Call(func() {
+		switch mode {
+		case "larger-then-smaller":
+			objs = []any{sizedObject(kind, t, r, true), sizedObject(kind, t, r, false)}
+		case "other-kind-then-this":
+			objs = []any{sizedObject(tableKinds[r.Intn(4)], t, r, true), sizedObject(kind, t, r, false)}
+		case "other-type-then-this":
+			objs = []any{sizedObject(kind, gen.Types[r.Intn(9)], r, true), sizedObject(kind, t, r, false)}
+		default:
+			objs = []any{sizedObject(tableKinds[r.Intn(4)], gen.Types[r.Intn(9)], r, true), sizedObject(kind, t, r, true), sizedObject(kind, t, r, false)}
+		}
+	}); p != nil {
+		cs.Skip("source-construction-panics")
+		return
+	}
+	last := objs[len(objs)-1]
+	typ := typeName(last)
+	for k, o := range objs {
+		var err error
+		if p := fw.Call(func() { err = o.(exporter).Export(path) }); p != nil || err != nil {
+			if k == len(objs)-1 {
+				msg := "panics"
+				if err != nil {
+					msg = err.Error()
+				}
+				cs.Violation(sig(monitor, typ+".Export", mode, "any", "error:export"), "Export over an existing file fails: "+msg, map[string]any{"writer": typ, "mode": mode})
+			} else {
+				cs.Skip("source-not-exportable")
+			}
+			return
+		}
+	}
+	file, _ := os.ReadFile(path)
+	isMat := strings.HasSuffix(kind, "matrix")
+	storage := gen.Dense
+	if strings.HasPrefix(kind, "sparse") {
+		storage = gen.Sparse
+	}
+	o := cmpOpts{isInt: t.IsInt, bitExact: storage == gen.Dense}
+	cs.Cover(monitor + ":" + typ + ".Export")
+	cs.Cover(monitor + ":mode:" + mode)
+	cs.Cover("set:" + monitor + "-cells:" + typ + "/" + mode)
+	cs.Nontrivial(typ, mode, string(file))
+	cs.Sample(map[string]any{"writer": typ + ".Export", "mode": mode, "writes": len(objs), "file": clip(string(file), 300)})
+	w := map[string]any{"writer": typ + ".Export", "mode": mode, "earlier_objects": safeString(objs[:len(objs)-1]), "last_object": safeString(last), "file": clip(string(file), 1500)}
+	target, get := decodeTarget(kind, t, r)
+	var err error
+	if p := fw.Call(func() { err = target.(importer).Import(path) }); p != nil {
+		cs.Violation(sig(monitor, typ+".Export", mode, "any", "panic:import"), "importing the file after the last Export panics: "+p.Msg+" @ "+p.Frame, w)
+		return
+	}
+	if err != nil {
+		cs.Violation(sig(monitor, typ+".Export", mode, "any", "error:import"), "the file written by the last Export cannot be imported: "+err.Error(), w)
+		return
+	}
+	var f *failure
+	if isMat {
+		s0, p := snapMatrix(last.(ad.Matrix))
+		if p != nil {
+			return
+		}
+		f = compareMatrix(s0, get().(ad.Matrix), t, o, storage == gen.Sparse)
+	} else {
+		s0, p := snapVector(last.(ad.Vector))
+		if p != nil {
+			return
+		}
+		f = compareVector(s0, get().(ad.Vector), t, o, storage == gen.Sparse)
+	}
+	if f != nil {
+		cs.Violation(sig(monitor, typ+".Export", mode, "any", f.Kind), "after writing several objects to the same path the file does not hold the last one: "+f.Detail, w)
+	}
+}
